@@ -4,11 +4,11 @@
 usage: checks/c03.py [--tier ..] [--seed ..]     (property id taken from argv[0]: c03.py / c04.py)"""
 import os, sys
 sys.path.insert(0, os.path.join(os.path.dirname(os.path.abspath(__file__)), "..", "tools"))
-from nqlib import run_standard, VERIF, kv
+from nqlib import run_standard, VERIF, kv, sh
 
 PROP = os.path.basename(sys.argv[0])[:3].upper()
 
-RULE = ("the real qmail-send and qmail-clean mains (ASan+UBSan build of the working tree) run under qsim with scripted spawners: corpus/%(p)s.txt first, then %(n)s seeded histories of "
+RULE = ("the real qmail-send, qmail-clean AND (started by the real qmail.c of qmail-send through pipe/fork/exec for every bounce injection) qmail-queue mains (ASan+UBSan build of the working tree) run under qsim with scripted spawners; a queued bounce is an ordinary message of the history from then on: corpus/%(p)s.txt first, then %(n)s seeded histories of "
         "1-3 messages x 1-3 local/remote recipients x outcome scripts over {K,Z,D,mangled,out-of-range,unused-slot,blank-line text,oversized} x report orders "
         "(FIFO/LIFO/random) x concurrency 0..3 x spawner limit 0..3 x queuelifetime {0,1,150,2000,default} x TERM/ALRM/HUP at select points x failing bounce "
         "injections; one quarter with 1-2 world crashes (process crash, or machine crash with un-fsynced data lost/empty/garbage/half) followed by restart, one quarter "
@@ -17,7 +17,7 @@ RULE = ("the real qmail-send and qmail-clean mains (ASan+UBSan build of the work
         "histories (3-9 recipients of a message on one channel, mixed K/Z/D/mangled outcomes over several passes, ALRM/HUP, reports withheld), %(n)s/40 fault sweeps "
         "(2-3 messages arriving one after the other so that job slots, delivery slots and message numbers are reused: the fault-free base run, then one run per system call of "
         "qmail-send on a file below info/ local/ remote/ bounce/ todo/ - open, read, write, fsync, fstat, stat, unlink, utimes - with exactly that call failing, and one run per unlink of "
-        "qmail-clean (intd/ todo/ mess/) failing with EIO so that qmail-clean answers '!'; thorough: every fourth base sweeps every system call) and %(n)s/50 clean-stop sweeps (1-2 messages with more recipients than delivery slots, queuelifetime {0,1,150,default}: "
+        "qmail-clean (intd/ todo/ mess/) failing with EIO so that qmail-clean answers '!' and up to 12 runs with one system call of the first qmail-queue child failing; thorough: every fourth base sweeps every system call) and %(n)s/50 clean-stop sweeps (1-2 messages with more recipients than delivery slots, queuelifetime {0,1,150,default}: "
         "base run, then one run per select point at/after which a command, report or arrival happened (and every 16th idle one) with TERM delivered there, the daemon exiting 0 "
         "once the in-flight attempts have reported, and a restart on the same queue). Every trace is abstracted to Daemon.Ev events and replayed through the monitor "
         "Daemon.accept2 (= Daemon.accept plus the list of completion marks that are due, kept across clean restarts; first rejected event = disagreement); the oracles judge the concrete run, keyed by record (message, channel, byte offset, generation): every accepted recipient is delivered (K read for that record), still T at its "
@@ -30,10 +30,15 @@ RULE = ("the real qmail-send and qmail-clean mains (ASan+UBSan build of the work
 
 
 def builder(s):
-    o1, e1 = s.prog_object("qs", "qmail-send.c", "qmail-send", keep_globals=["auto_split", "d"], objs_exclude=["qmail.o"])
+    # REAL qmail.c mode of harness/qsend.c: qmail.c of the scratch tree is recompiled with fork() redirected (harness/qsend_fork.h: the
+    # child branch of qmail_open runs as a further simulated process), qmail-send is linked with that qmail.o (no stand-in), and
+    # the real qmail-queue main is the program the child exec's (instance "qq")
+    sh("./compile -include %s/harness/qsend_fork.h qmail.c" % VERIF, cwd=s.dir, check=True)
+    o1, e1 = s.prog_object("qs", "qmail-send.c", "qmail-send", keep_globals=["auto_split", "d"])
     o2, e2 = s.prog_object("qc", "qmail-clean.c", "qmail-clean")
-    return s.cc(os.path.join(VERIF, "harness/qsend.c"), os.path.join(s.dir, "h_qsend"),
-                extra="%s/harness/sim.c %s %s %s %s -lpthread -ldl" % (VERIF, o1, o2, e1, e2))
+    o3, e3 = s.prog_object("qq", "qmail-queue.c", "qmail-queue")
+    return s.cc(os.path.join(VERIF, "harness/qsend.c"), os.path.join(s.dir, "h_qsend"), defines="-DQSEND_REAL_QMAIL",
+                extra="%s/harness/sim.c %s %s %s %s %s %s -lpthread -ldl" % (VERIF, o1, o2, o3, e1, e2, e3))
 
 
 def mutate(dis, seed):
@@ -58,4 +63,4 @@ run_standard(PROP, "Nq.Props." + PROP, "drv_c03", "harness/qsend.c", None, [],
              "Daemon.accept2 (Nq/Daemon.lean + Nq/DaemonOwed.lean) vs the system-call traces of qmail-send.c/qmail-clean.c",
              builder=builder, mutate=mutate, oracle_filter="prop=" + PROP,
              assumptions=["OS semantics of DESIGN.md 1.4 as implemented by harness/sim.c", "spawners are scripted by the harness (arbitrary bytes allowed on the report pipes)",
-                          "bounce injection is one atomic event (its atomicity is C01)", "rewrite() is the identity on the harness's recipients (C10 models it)"])
+                          "pipe()/fork()/execv()/waitpid() of qmail_open/qmail_close are provided by the harness (they do not fail; close-on-exec is not modelled)", "rewrite() is the identity on the harness's recipients (C10 models it)"])
